@@ -3,7 +3,7 @@
 EXTENDS Handshake, Json
 CONSTANTS MaxBudget, MaxExtras
 VARIABLE s
-Kinds == {"ok", "fail", "noresult", "nooh", "noapps", "unsupapps", "vsaunsup", "vsaok", "relayok", "failok", "silence", "eof"}
+Kinds == {"wfail", "ok", "fail", "noresult", "nooh", "noapps", "unsupapps", "vsaunsup", "vsaok", "relayok", "failok", "silence", "eof"}
 Extras == {"dupok", "latefail", "latemalformed"}
 Seqs(S, n) == UNION {[1..k -> S] : k \in 0..n}
 \* stall: milliseconds the transport takes to accept each CER (back-pressure); the spacing is
@@ -19,6 +19,8 @@ Init == s \in {S(b, k, a) : b \in 0..MaxBudget, k \in Kinds, a \in 1..(MaxBudget
          \* cfg: the client was told to advertise one more application, of that type, which its dictionary lacks
          \cup {[S(b, "ok", 1) EXCEPT !.cfg = c] : b \in 0..1, c \in {"acct", "auth", "vsa"}}
          \cup {[S(0, "ok", 1) EXCEPT !.redial = TRUE]}
+         \* owndict: the client works with a dictionary of its own (base, credit control, a private application)
+         \cup {[S(b, k, 1) EXCEPT !.cfg = "owndict"] : b \in 0..1, k \in {"privok", "defonly", "ok", "fail"}}
          \* local: the only local address of the transport is link-local (IPv4 169.254/16, IPv6 fe80::/10 with a zone)
          \cup {[S(b, k, 1) EXCEPT !.local = x] : b \in 0..1, k \in {"ok", "fail"}, x \in {"ll4", "ll6"}}
          \* during: the answer to the at-th CER is delivered while the transport is still busy (80 ms) accepting
